@@ -250,7 +250,9 @@ func (iter *DBIterator) materialize(src *kv.Entry) bool {
 	if iter == nil || src == nil {
 		return false
 	}
-	if src.IsDeletedOrExpired() {
+	// A tombstone read back from a memtable or table carries an empty, non-nil value, so
+	// the delete mark in Meta is what identifies it.
+	if src.Meta&kv.BitDelete != 0 || src.IsDeletedOrExpired() {
 		return false
 	}
 	iter.entry = *src
